@@ -238,7 +238,7 @@ def _rest(R, P, g, rt, exprs):
             d = dict(st)
             env = dict(d.get('env', ()))
             if n.id in F:
-                disc = any(isinstance(c.func, ast.Name) and c.func.id == 'retry' and any(isinstance(a_, ast.Constant) and a_.value is True for a_ in c.args)
+                disc = any(isinstance(c.func, ast.Name) and c.func.id == 'retry' and any(isinstance(a_, ast.Constant) and a_.value is True for a_ in list(c.args) + [k_.value for k_ in c.keywords])
                            for c in n.calls())
                 if d.get('pending'):
                     if not (d.get('disc') and SEG and not ZERO):
